@@ -18,6 +18,7 @@ pub fn judge(dir: &Path, sc: &Scenario, obs: &mut Obs) -> Judge {
     obs.class_if(near, "window-boundary-at-wrap");
     obs.class_if(sc.nblocks() > 131071, "two-wraps");
     obs.nontrivial = fa.crossed_wrap && (!r.hits.is_empty() || near);
+    let _ = &r;
     if sc.nfaults() < 6 && sc.dally {
         match sc.role {
             Role::Sender => {
@@ -120,15 +121,22 @@ fn single_faults_at_wrap(ws_list: &[u16]) -> Vec<Scenario> {
 
 pub fn run(ctx: &Ctx) {
     sim::init();
-    ctx.set_rule("transfers of 65534..65538 and 131071..131073 blocks (blksize 8) through the real worker in both roles; windowsize from {1,2,3,7,8,16,64,1000}, from divisors of 65534/65535/65536 so that a window ends exactly before/at/after the wrap, and random <=2000; 0-2 drop/dup/swap/late faults placed in the windows that contain blocks 65534..65537. File content encodes the absolute offset, so a block attributed 65536 positions away never matches. Exhaustive part: every single drop/duplicate/late fault on every datagram of either direction in the windows around block 65536 for windowsize {1,2,4,5} (thorough: 10 sizes), 65539-block transfers, both roles. Oracle: S1-S4 (content, final block, window, consecutive bursts) / R1, R2, R5 (ACK never ahead, file on disk at every ACK, final file) with absolute block indices, both sides complete with byte-identical data. Non-trivial = the transfer crossed the wrap and a fault hit there or a window boundary lies within 2 blocks of 65536; distinct = distinct (scenario, trace shape).");
+    ctx.set_rule("transfers of 65534..65538 and 131071..131073 blocks (blksize 8) through the real worker in both roles; windowsize from {1,2,3,7,8,16,64,1000}, from divisors of 65534/65535/65536 so that a window ends exactly before/at/after the wrap, and random <=2000; 0-2 drop/dup/swap/late faults placed in the windows that contain blocks 65534..65537. File content encodes the absolute offset, so a block attributed 65536 positions away never matches. Exhaustive part: every single drop/duplicate/late fault on every datagram of either direction in the windows around block 65536 for windowsize {1,2,4,5} (thorough: 10 sizes), 65539-block transfers, both roles. Oracle: S1-S4 (content, final block, window, consecutive bursts) / R1, R2, R5 (ACK never ahead, file on disk at every ACK, final file) with absolute block indices, both sides complete with byte-identical data. A wire part runs tftpc against tftpd for a 65538-block download and upload (byte-identical files). Non-trivial = the transfer crossed the wrap and a fault hit there or a window boundary lies within 2 blocks of 65536; distinct = distinct (scenario, trace shape).");
     let dirs = DirPool::new(ctx, "c15");
-    explore_n(ctx, "wrap", ctx.tier.pick(320, 6000), shards(), 32, strategy, |c: &Scenario, o| dirs.with(|d| judge(d, c, o)));
+    explore_n(ctx, "wrap", ctx.tier.pick(640, 8000), shards(), 32, strategy, |c: &Scenario, o| dirs.with(|d| judge(d, c, o)));
     let ws_list: Vec<u16> = ctx.tier.pick(vec![1, 2, 4, 5], vec![1, 2, 3, 4, 5, 7, 8, 15, 16, 17]);
     let cases = single_faults_at_wrap(&ws_list);
     enumerate(ctx, "exh-single-fault-at-wrap", &cases, true, |c, o| dirs.with(|d| judge(d, c, o)));
+    // the real binaries across the wrap: tftpc against tftpd, 65538 blocks of 8 bytes, one download and one upload (thorough: four)
+    let wraps = super::c14::wrap_cases();
+    let n = ctx.tier.pick(2, 4);
+    enumerate(ctx, "wire-beyond-65535-blocks", &wraps[..n], false, |c, o| dirs.with(|d| super::c14::judge(d, c, o)));
 }
 
 pub fn replay(ctx: &Ctx, part: &str, case: &Value) -> bool {
+    if part.starts_with("wire-") {
+        return super::c14::replay(ctx, part, case);
+    }
     sim::init();
     let dirs = DirPool::new(ctx, "c15");
     replay_one(ctx, part, case, |c: &Scenario, o| dirs.with(|d| judge(d, c, o)))
